@@ -280,4 +280,7 @@ class ScaledProximableFunctional(ScaledFunctional, ProximableFunctional):
         self._throw_if_negative_or_complex(
             self.scale, 'For prox_convex_conj to be defined, the scaling factor must be real and non-negative'
         )
+        if torch.all(torch.as_tensor(self.scale) == 0):
+            # the convex conjugate of the zero functional is the indicator function of {0}: its proximal mapping is 0
+            return (self.scale * self.functional.prox_convex_conj(x, sigma)[0],)
         return (self.scale * self.functional.prox_convex_conj(x / self.scale, sigma / self.scale)[0],)
